@@ -170,7 +170,9 @@ def r3_once_per_sample(ctx):
     st = common.stmt_of(cal.node, upd[0]) if upd else None
     res = st.targets[0].id if isinstance(st, ast.Assign) and isinstance(st.targets[0], ast.Name) else None
     ext = [c for c in common.calls_in(cal.node) if isinstance(c.func, ast.Attribute) and c.func.attr in ('update', 'add') and ast.unparse(c.func.value) == var]
-    ctx.check(R, res is not None and any(ast.unparse(c.args[0]) == res for c in ext if c.args), cal.node, cal, f'{var}.update(<result>)',
+    # (the result may be held in a local or passed on directly: `set.update(self._update_qsvs(...))`)
+    direct = any(c.args and upd and any(x is upd[0] for x in ast.walk(c.args[0])) for c in ext)
+    ctx.check(R, direct or (res is not None and any(ast.unparse(c.args[0]) == res for c in ext if c.args)), cal.node, cal, f'{var}.update(<result>)',
               'the names returned by _update_qsvs must be added to the per-sample set')
   u = ctx.repo.func(f'{CAL}._update_qsvs')
   ctx.instance(R)
@@ -303,7 +305,10 @@ def r8_resume_equivalence(ctx):
     return
   guard = guards[0]
   only_fresh = []
-  for st in guard.ast.body:
+  # the arm taken when no statistics are loaded: the body of `if not <stats>`, the else arm of `if <stats>`
+  t = guard.ast.test
+  fresh_arm = guard.ast.body if isinstance(t, ast.UnaryOp) and isinstance(t.op, ast.Not) else guard.ast.orelse
+  for st in fresh_arm:
     for c in common.calls_in(st):
       for s in cg.sites.get(cal.fq, []):
         if s.node is c:
